@@ -159,6 +159,7 @@ class _World:
               raise AnalysisError(f"Director.{fn.name}: cannot bind the call {src(n)[:60]}")
             continue
           todo += [(dms[n.func.attr], k) for k, v in b.items() if dotted(v) == p]
+    read = {a for a in read if a in self.props or a not in ms}   # method calls on the error are not reads
     self.filter_reads = sorted(read)
     fields = set()
     for a in read:
@@ -402,7 +403,8 @@ def r3_21(ctx):
     if fn is None or isinstance(fn, ast.Lambda):
       raise AnalysisError(f"{mod.rel}:{node.lineno}: an error is moved outside a function")
     q = _qual(mod, node)
-    role = src(recv) if len(src(recv)) <= 40 else src(recv)[:37] + "..."
+    role = f"{dotted(recv.func)}(..)" if isinstance(recv, ast.Call) and dotted(recv.func) else (
+        src(recv) if len(src(recv)) <= 40 else src(recv)[:37] + "...")
     construct = f"{q}:{what}({role})"
     if (mod.rel, construct) in judged:
       return
@@ -532,13 +534,12 @@ VARIANTS = [
      "new": _ERR_M + "    return err\n", "expect": "silent"},
     {"name": "twin-override-guard-as-conditional-expression", "rule": "R3.21", "file": ERR, "old": _ERR_M,
      "new": "    err.set_line(line if line else err.line)\n    self._add(err)\n", "expect": "silent"},
-    {"name": "twin-rename-local-and-build-in-helper", "rule": "R3.21", "expect": "silent",
+    {"name": "twin-rename-local-and-override-in-helper", "rule": "R3.21", "expect": "silent",
      "edits": [(ERR, "    err = Error.with_stack(\n        stack,\n        SEVERITY_ERROR,\n        message,\n"
-                "        details=details,", "    e = self._make(\n        stack,\n        SEVERITY_ERROR,\n"
+                "        details=details,", "    e = Error.with_stack(\n        stack,\n        SEVERITY_ERROR,\n"
                 "        message,\n        details=details,"),
-               (ERR, _ERR_M, "    if line:\n      e.set_line(line)\n    self._add(e)\n\n"
-                "  def _make(self, stack, severity, message, **kwargs):\n"
-                "    made = Error.with_stack(stack, severity, message, **kwargs)\n    return made\n")]},
+               (ERR, _ERR_M, "    self._override_line(e, line)\n    self._add(e)\n\n"
+                "  def _override_line(self, made, line):\n    if not line:\n      return\n    made.set_line(line)\n")]},
     {"name": "twin-benign-C03-r4-filter-moves-through-a-helper", "rule": "R3.21", "patch": "benign/C03-r4/patch.diff",
      "expect": "silent"},
     {"name": "mover-handed-around-as-a-value", "rule": "R3.21", "file": VM,
